@@ -58,6 +58,7 @@ class Spec:
     measure: z3.ArithRef | None = None                # termination measure for recursive groups
     enums: list = field(default_factory=list)         # ghost enumerations: (RSeq const, predicate Ref -> Bool)
     defs: list = field(default_factory=list)          # ground definitional unfoldings of fold-style spec functions (run-time monitor)
+    ghosts: list = field(default_factory=list)        # (name, const): spec-level ghost values matched with the body's ghost locals
 
 
 class SpecCtx:
@@ -92,13 +93,20 @@ class SpecCtx:
     def measure(self, m):
         self.spec.measure = m
 
+    def ghost(self, name, sort):
+        """an existentially quantified spec value (e.g. the number of steps of a canonical machine); the body check
+        identifies it with the ghost local `$name` defined by the loop invariants, callers get a fresh constant"""
+        g = T.fresh("spec_" + name, sort)
+        self.spec.ghosts.append((name, g))
+        return g
+
     def enum_where(self, pred, name="enum"):
         """ghost: an arbitrary duplicate-free enumeration of the references satisfying `pred` (set iteration order, A9).
         The body check identifies it with the enumeration the code actually iterates over."""
         p = T.fresh("spec_" + name, T.RSeq)
         self.spec.enums.append((p, pred))
         self.spec.assume_schemas.append(Schema(f"enum({p})", (T.Ref,), lambda x, p=p, pred=pred: z3.And(
-            T.Cnt(p, x) <= 1, (T.Cnt(p, x) >= 1) == pred(x))))
+            T.Cnt(p, x) <= 1, (T.Cnt(p, x) >= 1) == pred(x), z3.Implies(z3.Length(p) > 0, T.Cnt(p, p[0]) >= 1))))
         return p
 
     def fresh(self, cname_or_cls, name="new"):
